@@ -27,11 +27,14 @@ REGEX = ['test("a+")', 'match("(?<x>a)(b)?"; "g") | .captures | length', '[scan(
          'capture("(?<k>[a-z]+)")', 'test("A"; "i")', '[match("";"g")] | length', 'ascii_downcase | test("ab")', '(tostring | test("1")), (tojson | test("a"))']
 LITERALS = ['[1, [2, {"a": [3]}]] as $c | $c[1].a + [.]', '{"k": {"l": [1, 2]}} | .k.l |= map(. + 1)', '[[1, 2], [3]] | add + [1] | sort', '{"a": [1]} * {"a": [2], "b": {}} | .b.c = 1',
             '[{"a": 1}, {"a": 0}] | sort_by(.a) | .[0].a = 5', '{"x": []} | .x += [1] | .x[0] += 1', '[3, 1, 2] | sort | .[0] = 9', '["a", "b"] | join(",") | ascii_upcase',
-            '{"a": {"b": {"c": 1}}} | del(.a.b.c), (.a.b.c |= . + 1), [paths]', '[[0]] | .[0][0] |= 1 | . + [[2]] | flatten']
+            '{"a": {"b": {"c": 1}}} | del(.a.b.c), (.a.b.c |= . + 1), [paths]', '[[0]] | .[0][0] |= 1 | . + [[2]] | flatten',
+            '[0, 1, 2, 3] | .[1:3][0] |= . + 1', '[0, [1], 2] | .[1:][0][0] += 1, (.[:2] | .[1]) = 5', '{"a": [1, 2, 3]} | .a[0:2][1] |= . + 1 | .a[1:][0] |= . + 1']
 SHAREDIN = ['del(.a.q)', 'del(.a.q, .b)', '.a.r |= map(. + 1)', '.. |= .', 'to_entries', '[paths]', 'del(..|.q?)', '.a |= del(.q)', 'delpaths([["a","q"],["b"]])', '.b.c = 1 | del(.a)', 'map_values(.)',
             '.a.r[0] = 9', 'with_entries(.value |= .)', '[.[]] | add?', 'tojson | fromjson', '[tostream] | fromstream(.[])', '.a.r | sort | reverse', '.a + .b', 'keys, length, (.a | keys)', 'walk(.)',
             '.a.r + [9]', '.a.r[:2] + [.a.r[0]]', '.a.r + .a.r | length', 'reduce .a.r[] as $x (.a.r[:1]; . + [$x])', '.a.r[1:] + [0] | length', '.a.r - [1] + [2]', '[.a.r, .b.q] | add', '.a.r[:1] | . + . + .',
-            '.a.r |= . + [1]', '.a.r += [7]', '.a.r[:2] |= . + [5]', '[.a.r[:2][]] + .a.r[:1]', '.a.r | .[:2] as $p | $p + [4], $p + [5]']
+            '.a.r |= . + [1]', '.a.r += [7]', '.a.r[:2] |= . + [5]', '[.a.r[:2][]] + .a.r[:1]', '.a.r | .[:2] as $p | $p + [4], $p + [5]',
+            # slice followed by a deeper component: the replacement has the slice's length, the target is the shared input (seeded C06_10)
+            '.a.r[0:2][0] |= . + 1', '.a.r[1:3][0] += 1', '(.a.r[:2] | .[1]) = 10', '.a.r[1:][1].q |= . + 1', '.a.r[:3][2].q = 7', '.b.q[0:1][0] |= . * 2', '(.a.r[0:2], .a.r[1:3]) |= map(.)', '.a.r[1:2][0] |= [.]']
 
 
 def run(tier, seed, replay):
